@@ -299,3 +299,17 @@ class CanaryHarmonicIsArithmetic(_MeanAxisOb):
 
     def clauses(self, w, S, a, P, v, va, vb, hl, hh, lo, hi):
         return [('canary', w.eq(v, (hl * va + hh * vb) / (hl + hh)))]
+
+
+class GeometricMeanZerosIEEE(GeometricMeanZeros):
+    """2-D / 3-D geometricMean on data with exact zeros: log(0) = -inf, exp(-inf) = 0 is IEEE behaviour without a
+    meaning over the reals -> bounded stand-in: native evaluation on small grids with random non-negative data"""
+    name = 'geometricMean/zeros(IEEE, bounded)'
+    grids = ('Grid2D', 'CylindricalGrid2D', 'PolarGrid2D', 'Grid3D', 'CylindricalGrid3D', 'SphericalGrid3D')
+    bounded_only = True
+    scope = 'grids of 1..4 cells per axis, random non-negative rational data with ~15% exact zeros, seeds VERIF_SEED..+5 (quick) / +39 (thorough)'
+
+    def setup(self, w):
+        import numpy as _np
+        with _np.errstate(all='ignore'):
+            return super().setup(w)
